@@ -30,7 +30,8 @@ theorem crc_guard (E : Env) (fuel idx sub : Nat) (crcReq : Bool) (v : Bytes)
     (hsup : (blockUpload E fuel idx sub crcReq).1.cl.crcSupported = true)
     (hdone : (blockUpload E fuel idx sub crcReq).1.cl.done = true) :
     (blockUpload E fuel idx sub crcReq).1.cl.serverCrc = some (crcHqx v 0) := by
-  unfold blockUpload at h hsup hdone ⊢
+  unfold blockUpload blockUploadFrom at h hsup hdone ⊢
+  rw [show ({ ({} : Sys) with cl := {} }) = ({} : Sys) from rfl] at h hsup hdone ⊢
   have hi := init_ci E idx sub crcReq
   generalize init E {} idx sub crcReq = x at hi h hsup hdone ⊢
   obtain ⟨s, b⟩ := x
@@ -53,7 +54,8 @@ theorem crc_guard (E : Env) (fuel idx sub : Nat) (crcReq : Bool) (v : Bytes)
 theorem crc_only_if_requested (E : Env) (fuel idx sub : Nat) (v : Bytes)
     (h : (blockUpload E fuel idx sub false).2 = .ok v) :
     (blockUpload E fuel idx sub false).1.cl.crcSupported = false := by
-  unfold blockUpload at h ⊢
+  unfold blockUpload blockUploadFrom at h ⊢
+  rw [show ({ ({} : Sys) with cl := {} }) = ({} : Sys) from rfl] at h ⊢
   have hi := init_sup E idx sub
   have hci := init_ci E idx sub false
   generalize init E {} idx sub false = x at hi hci h ⊢
@@ -94,11 +96,11 @@ theorem single_bit_flip_detected (E : Env) (fuel idx sub : Nat) (crcReq : Bool) 
     announced number of unused bytes (`assemble_true`). -/
 theorem undisturbed (cfg : Cfg) (hx : cfg.crcXor = 0) (he : cfg.endB0 = none) (h1 : 1 ≤ cfg.data.length)
     (h2 : cfg.data.length < 2 ^ 32) (crcReq : Bool) (idx sub fuel : Nat) (hf : nseg cfg + 1 ≤ fuel) :
-    (blockUpload ⟨cfg, idChan⟩ fuel idx sub crcReq).2 = .ok cfg.data ∧
-    (blockUpload ⟨cfg, idChan⟩ fuel idx sub crcReq).1.srv.confirmed = true ∧
-    (blockUpload ⟨cfg, idChan⟩ fuel idx sub crcReq).1.srv.illegal = none ∧
-    (blockUpload ⟨cfg, idChan⟩ fuel idx sub crcReq).1.cl.size = (if cfg.sizeInd then some cfg.data.length else none) ∧
-    (reqFrames (blockUpload ⟨cfg, idChan⟩ fuel idx sub crcReq).1).reverse =
+    (blockUpload { cfg := cfg, chan := idChan } fuel idx sub crcReq).2 = .ok cfg.data ∧
+    (blockUpload { cfg := cfg, chan := idChan } fuel idx sub crcReq).1.srv.confirmed = true ∧
+    (blockUpload { cfg := cfg, chan := idChan } fuel idx sub crcReq).1.srv.illegal = none ∧
+    (blockUpload { cfg := cfg, chan := idChan } fuel idx sub crcReq).1.cl.size = (if cfg.sizeInd then some cfg.data.length else none) ∧
+    (reqFrames (blockUpload { cfg := cfg, chan := idChan } fuel idx sub crcReq).1).reverse =
       [[0xA0 ||| 0 ||| (if crcReq then 4 else 0), idx % 256, idx / 256, sub, 127, 0, 0, 0], startFrame]
         ++ idealAcks (nseg cfg) (nseg cfg) ++ [endConfirm] := by
   have hc := chanOK_id cfg crcReq idx sub
@@ -126,7 +128,7 @@ theorem wrong_crc_or_end_frame_errors (cfg : Cfg) (h1 : 1 ≤ cfg.data.length) (
     (crcReq : Bool) (idx sub fuel : Nat) (hf : nseg cfg + 1 ≤ fuel)
     (hwrong : (cfg.endB0 = none ∧ crcReq = true ∧ cfg.crcCapable = true ∧ cfg.crcXor % 65536 ≠ 0) ∨
       (∃ b, cfg.endB0 = some b ∧ ¬ (b &&& 0xE0 = 0xC0 ∧ b &&& 3 = 1))) :
-    (blockUpload ⟨cfg, idChan⟩ fuel idx sub crcReq).2 = .err := by
+    (blockUpload { cfg := cfg, chan := idChan } fuel idx sub crcReq).2 = .err := by
   have hc := chanOK_id cfg crcReq idx sub
   have hn := (nseg_bounds cfg h1).1
   have hnacc : ¬ Accept (idPar cfg crcReq idx sub)
@@ -162,7 +164,7 @@ theorem flipped_data_byte_errors (cfg : Cfg) (hx : cfg.crcXor = 0) (he : cfg.end
     (h1 : 1 ≤ cfg.data.length) (h2 : cfg.data.length < 2 ^ 32) (hcap : cfg.crcCapable = true)
     (hbytes : AllBytes cfg.data) (idx sub fuel : Nat) (hf : nseg cfg + 1 ≤ fuel) (i0 k x : Nat) (hk : k < 7)
     (hpos : 7 * i0 + k < cfg.data.length) (hx256 : x < 256) (hne : x ≠ cfg.data.getD (7 * i0 + k) 0) :
-    (blockUpload ⟨cfg, fun n f => if n = i0 + 1 then some (f.set (k + 1) x) else some f⟩ fuel idx sub true).2
+    (blockUpload { cfg := cfg, chan := (fun n f => if n = i0 + 1 then some (f.set (k + 1) x) else some f) } fuel idx sub true).2
       = .err := by
   obtain ⟨n1, n2, n3⟩ := nseg_bounds cfg h1
   have hi : i0 < nseg cfg := by omega
@@ -200,8 +202,8 @@ theorem flipped_data_bit_errors (cfg : Cfg) (hx : cfg.crcXor = 0) (he : cfg.endB
     (h1 : 1 ≤ cfg.data.length) (h2 : cfg.data.length < 2 ^ 32) (hcap : cfg.crcCapable = true)
     (hbytes : AllBytes cfg.data) (idx sub fuel : Nat) (hf : nseg cfg + 1 ≤ fuel) (i0 k j : Nat) (hk : k < 7)
     (hpos : 7 * i0 + k < cfg.data.length) (hj : j < 8) :
-    (blockUpload ⟨cfg, fun n f => if n = i0 + 1 then
-        some (f.set (k + 1) (cfg.data.getD (7 * i0 + k) 0 ^^^ (1 <<< j))) else some f⟩ fuel idx sub true).2
+    (blockUpload { cfg := cfg, chan := (fun n f => if n = i0 + 1 then
+        some (f.set (k + 1) (cfg.data.getD (7 * i0 + k) 0 ^^^ (1 <<< j))) else some f) } fuel idx sub true).2
       = .err := by
   have hb : cfg.data.getD (7 * i0 + k) 0 < 256 := by
     have : cfg.data.getD (7 * i0 + k) 0 = cfg.data[7 * i0 + k] := by simp [List.getD_eq_getElem?_getD, hpos]
@@ -223,7 +225,7 @@ FULL STATEMENT (property text: "With CRC negotiated, any loss or corruption of s
 never returns data that differs from the server's value"):
 
     theorem never_returns_different_data (cfg) (chan : any loss / corruption of segment frames)
-        (h : (blockUpload ⟨cfg, chan⟩ fuel idx sub true).2 = .ok v) (hcap : cfg.crcCapable = true) :
+        (h : (blockUpload { cfg := cfg, chan := chan } fuel idx sub true).2 = .ok v) (hcap : cfg.crcCapable = true) :
         v = cfg.data
 
 It is FALSE of the code (and no 16-bit checksum can make it true for corruption; for *loss* it
@@ -250,7 +252,7 @@ theorem never_returns_different_data_partial (E : Env) (fuel idx sub : Nat) (crc
     the fifth segment (server frame 5) is lost, everything else arrives untouched -/
 def cexEnv : Env :=
   { cfg := { data := List.replicate 57 0, crcCapable := true, sizeInd := true },
-    chan := fun n f => if n = 5 then none else some f }
+    chan := (fun n f => if n = 5 then none else some f) }
 
 /-- **Closed counterexample** to the full statement: the upload returns normally, CRC negotiated,
     the genuine checksum was read — and the value returned is 29 bytes long instead of 57. -/
@@ -267,26 +269,23 @@ theorem crc_blind_counterexample :
 
 /-- 30 bytes, CRC negotiated: the hypotheses of `undisturbed` are satisfiable and the run is not
     degenerate (5 segments, one acknowledge, end) -/
-example : (blockUpload ⟨{ data := List.range' 1 30, crcCapable := true, sizeInd := true }, idChan⟩
+example : (blockUpload { cfg := { data := List.range' 1 30, crcCapable := true, sizeInd := true }, chan := idChan }
     50 0x2000 1 true).2 = .ok (List.range' 1 30) := by decide +kernel
 
 /-- a lost first segment of a sub-block is repaired (ackseq 0, the server resends everything) -/
-example : (blockUpload ⟨{ data := List.range' 1 30, crcCapable := true, sizeInd := true },
-    fun n f => if n = 1 then none else some f⟩ 50 0x2000 1 true).2 = .ok (List.range' 1 30) := by decide +kernel
+example : (blockUpload { cfg := { data := List.range' 1 30, crcCapable := true, sizeInd := true }, chan := (fun n f => if n = 1 then none else some f) } 50 0x2000 1 true).2 = .ok (List.range' 1 30) := by decide +kernel
 
 /-- a lost later segment: the client resumes at the wrong segment, the CRC catches it -/
-example : (blockUpload ⟨{ data := List.range' 1 30, crcCapable := true, sizeInd := true },
-    fun n f => if n = 2 then none else some f⟩ 50 0x2000 1 true).2 = .err := by decide +kernel
+example : (blockUpload { cfg := { data := List.range' 1 30, crcCapable := true, sizeInd := true }, chan := (fun n f => if n = 2 then none else some f) } 50 0x2000 1 true).2 = .err := by decide +kernel
 
 /-- hypotheses of `crc_guard` / `single_bit_flip_detected` hold in a real run with a flipped bit -/
-example : (blockUpload ⟨{ data := List.range' 1 30, crcCapable := true, sizeInd := true },
-    fun n f => if n = 2 then some (f.set 2 (f.getD 2 0 ^^^ 2)) else some f⟩ 50 0x2000 1 true).2 = .err := by
+example : (blockUpload { cfg := { data := List.range' 1 30, crcCapable := true, sizeInd := true }, chan := (fun n f => if n = 2 then some (f.set 2 (f.getD 2 0 ^^^ 2)) else some f) } 50 0x2000 1 true).2 = .err := by
   decide +kernel
 
 /-- wrong checksum / wrong end frame -/
-example : (blockUpload ⟨{ data := List.range' 1 30, crcCapable := true, sizeInd := false, crcXor := 1 }, idChan⟩
+example : (blockUpload { cfg := { data := List.range' 1 30, crcCapable := true, sizeInd := false, crcXor := 1 }, chan := idChan }
     50 0x2000 1 true).2 = .err ∧
-    (blockUpload ⟨{ data := List.range' 1 30, crcCapable := true, sizeInd := false, endB0 := some 0xC0 }, idChan⟩
+    (blockUpload { cfg := { data := List.range' 1 30, crcCapable := true, sizeInd := false, endB0 := some 0xC0 }, chan := idChan }
     50 0x2000 1 false).2 = .err := by decide +kernel
 
 end Canopen.C13
